@@ -4,14 +4,14 @@ import Verif.Model.Token
 
   Theorems about `Verif.Token.authorize` (model of `Authority.Authorize`, see Model/Token.lean):
 
-  * `audiences_per_op`, `audiences_per_op_complete`, `audiences_disjoint` — what `Config.GetAudiences`
-    puts in the list of each operation.
+  * `audiences_per_op`, `audiences_per_op_complete` — what `Config.GetAudiences` puts in the list of
+    each operation.
   * `authorize_sound` — what an accepted token satisfies, **per provisioner type, exactly as coded**
     (`Accepts`); the differences between types are in the statement.
-  * `authorize_genuine_refuted` / `authorize_genuine_partial` — "accepted ⇒ verifies under the key
-    material of a configured provisioner" is false as the code stands (ACME / SCEP provisioners are
-    reachable through an audience fragment and ignore the token); it holds when no such provisioner
-    is configured.
+  * `authorize_genuine` — accepted ⇒ verifies under the key material of the configured, initialised
+    provisioner that answered; full strength since fix 719d1fc (ACME / SCEP provisioners, which
+    ignore the token, are refused). `authorize_genuine_refuted` is the historic refutation for the
+    definition before that fix (`authorizeOld`, D21).
   * `subject_refuted` / `subject_partial` — "accepted ⇒ non-empty subject" fails for OIDC x509 sign / revoke.
   * `mutation_*` — one corollary per mutation class of the statement.
   * `nothing_happens` — in the six handlers every signing / revoking call is dominated by a
@@ -139,8 +139,8 @@ def CertNow (pc : Pop) (now : Int) : Prop :=
 
 /-- … or, for renew, possibly past its end when the provisioner allows renewal after expiry -/
 def CertRenew (pc : Pop) (now : Int) (lenient : Bool) : Prop :=
-  pc.after ≤ maxInt64 ∧ (pc.after : Int) ≤ now / ns ∧ pc.before ≤ maxInt64 ∧
-    (now / ns < (pc.before : Int) ∨ lenient = true)
+  pc.after ≤ maxInt64 ∧ (pc.after : Int) ≤ now / ns ∧
+    (pc.before = certForever ∨ lenient = true ∨ (pc.before ≤ maxInt64 ∧ now / ns < (pc.before : Int)))
 
 /-- **What each provisioner type requires of an accepted token, as coded.** -/
 def Accepts (cfg : Config) (p : Prov) (c : Cr) (now : Int) (op : Op) (t : Tok) : Prop :=
@@ -223,21 +223,19 @@ theorem certWindow_ok (pc : Pop) (now : Int) (l : Bool) (u : Unit) (h : certWind
   · simp at h
   · split at h
     · simp at h
-    · split at h
-      · simp at h
-      · split at h
-        · simp at h
-        · rename_i h1 h2 h3 h4
-          refine ⟨by omega, by omega, by omega, ?_⟩
-          have hne : pc.before ≠ certForever := by
-            intro he; rw [he] at h3; simp [certForever, maxInt64] at h3
-          simp only [Bool.and_eq_true, bne_iff_ne, ne_eq, decide_eq_true_eq, Bool.not_eq_true', not_and,
-            Bool.not_eq_false] at h4
-          by_cases hlt : now / ns < (pc.before : Int)
-          · left; exact hlt
-          · right
-            have := h4 ⟨hne, by omega⟩
-            simpa using this
+    · rename_i h1 h2
+      simp only [Bool.or_eq_true, decide_eq_true_eq, not_or, Nat.not_lt, Int.not_lt] at h1
+      refine ⟨h1.1, h1.2, ?_⟩
+      by_cases hf : pc.before = certForever
+      · exact .inl hf
+      · right
+        cases l
+        · right
+          simp only [Bool.and_eq_true, bne_iff_ne, ne_eq, Bool.or_eq_true, decide_eq_true_eq, not_and, not_or,
+            Nat.not_lt, Int.not_le, Bool.not_false] at h2
+          have := h2 ⟨hf, trivial⟩
+          exact ⟨this.1, by omega⟩
+        · exact .inl rfl
 
 theorem certWindowTok_ok (pc : Pop) (now : Int) (u : Unit) (h : certWindowTok pc now = .ok u) :
     CertNow pc now := by
@@ -515,13 +513,15 @@ theorem loadByToken_some (cfg : Config) (t : Tok) (i : Nat) (p : Prov) (h : load
 
 /-- **authorize_sound.** If `Authority.Authorize` accepts a token for `op` and answers with
     provisioner `i`, then `i` is a configured provisioner that initialised, it is the one the
-    token's unverified claims name, the token was not issued before the CA started (unless that
+    token's unverified claims name and not an ACME / SCEP provisioner (those ignore tokens and
+    are refused, fix 719d1fc), the token was not issued before the CA started (unless that
     check is off), SSH operations have an SSH CA behind them, and the token satisfies what that
     provisioner's type requires (`Accepts`, spelled out per type above). For every configuration,
     instant, operation and token. -/
 theorem authorize_sound (cfg : Config) (now : Int) (op : Op) (t : Tok) (i : Nat)
     (h : authorize cfg now op t = .ok i) :
-    ∃ p, cfg.provs[i]? = some p ∧ p.init = true ∧ p.tokenId ∈ candidates t ∧ t.parsed = true ∧
+    ∃ p, cfg.provs[i]? = some p ∧ (p.ty ≠ .acme ∧ p.ty ≠ .scep) ∧ p.init = true ∧
+      p.tokenId ∈ candidates t ∧ t.parsed = true ∧
       (needsSSHCA op = true → cfg.sshCA = true) ∧
       (cfg.disableIat = false → ∀ iat, t.iat = some iat → cfg.startTime ≤ iat) ∧
       Accepts cfg p (t.crAt i) now op t := by
@@ -532,9 +532,11 @@ theorem authorize_sound (cfg : Config) (now : Int) (op : Op) (t : Tok) (i : Nat)
   · simp at h2
   · rename_i j p hl
     simp only [bind_ok, need_ok, pure_ok] at h2
-    obtain ⟨_, h3, _, h4, _, h5, rfl⟩ := h2
+    obtain ⟨_, hty, _, h3, _, h4, _, h5, rfl⟩ := h2
     obtain ⟨hm, hc⟩ := loadByToken_some _ _ _ _ hl
-    refine ⟨p, hm, h3, hc, h1, ?_, ?_, provOp_ok _ _ _ _ _ _ _ h5⟩
+    have hty' : p.ty ≠ .acme ∧ p.ty ≠ .scep := by
+      simpa using hty
+    refine ⟨p, hm, hty', h3, hc, h1, ?_, ?_, provOp_ok _ _ _ _ _ _ _ h5⟩
     · intro hn; simpa [hn] using h0
     · intro hd iat hi
       simp only [hd, issuedBefore, hi, Bool.false_or, Bool.not_eq_true', decide_eq_false_iff_not] at h4
@@ -578,14 +580,27 @@ def forgedTok : Tok :=
     fragment := s "acme/acme", fragEsc := s "acme/acme", hasSSH := false, sshTypeOk := true, nebSshOk := true, pop := none,
     cr := [Cr.none, Cr.none, Cr.none] }
 
-/-- **Refutation (defect, CVE-2025-44005 class).** "Accepted ⇒ the token verifies under the key
-    material of the answering provisioner" is false for the code as it stands: with an ACME
-    provisioner configured, `forgedTok` is authorized for sign (and for revoke). -/
+/-- `Authority.Authorize` as it was before fix 719d1fc: the provisioner the token names was used
+    whatever its type (historic; kept for the refutation below). -/
+def authorizeOld (cfg : Config) (now : Int) (op : Op) (t : Tok) : Out Nat := do
+  need (!needsSSHCA op || cfg.sshCA) .sshNotEnabled
+  need t.parsed .parse
+  match loadByToken cfg t with
+  | none => .reject .notFound
+  | some (i, p) =>
+    need p.init .disabled
+    need (cfg.disableIat || !issuedBefore cfg t) .issuedBeforeStart
+    provOp cfg p (t.crAt i) now op t
+    pure i
+
+/-- **Historic refutation (D21, CVE-2025-44005 class; fixed by 719d1fc).** For the code as it stood,
+    "accepted ⇒ the token verifies under the key material of the answering provisioner" was
+    false: with an ACME provisioner configured, `forgedTok` was authorized for sign (and revoke). -/
 theorem authorize_genuine_refuted :
-    ¬ ∀ (cfg : Config) (now : Int) (op : Op) (t : Tok) (i : Nat), authorize cfg now op t = .ok i →
+    ¬ ∀ (cfg : Config) (now : Int) (op : Op) (t : Tok) (i : Nat), authorizeOld cfg now op t = .ok i →
         ∃ p, cfg.provs[i]? = some p ∧ Verifies p (t.crAt i) := by
   intro h
-  have hacc : authorize exCfg 0 .sign forgedTok = .ok 2 := by decide
+  have hacc : authorizeOld exCfg 0 .sign forgedTok = .ok 2 := by decide
   obtain ⟨p, hp, hv⟩ := h _ _ _ _ _ hacc
   have : p = exAcme := by
     have : exCfg.provs[2]? = some exAcme := rfl
@@ -593,19 +608,18 @@ theorem authorize_genuine_refuted :
   subst this
   exact hv
 
-example : authorize exCfg 0 .revoke forgedTok = .ok 2 := by decide
+/-- the forged token is refused now, for sign and for revoke -/
+example : authorize exCfg 0 .sign forgedTok = .reject .tokenless := by decide
+example : authorize exCfg 0 .revoke forgedTok = .reject .tokenless := by decide
 
-/-- **authorize_genuine_partial.** With the exact extra hypothesis that no ACME / SCEP provisioner
-    is configured, an accepted token verifies under the key material of the configured,
-    initialised provisioner that answered. -/
-theorem authorize_genuine_partial (cfg : Config) (now : Int) (op : Op) (t : Tok) (i : Nat)
-    (hno : ∀ p ∈ cfg.provs, p.ty ≠ .acme ∧ p.ty ≠ .scep)
+/-- **authorize_genuine.** For every configuration, instant, operation and token: an accepted
+    token verifies under the key material of the configured, initialised provisioner that
+    answered (crypto facts as premises: `Verifies`). -/
+theorem authorize_genuine (cfg : Config) (now : Int) (op : Op) (t : Tok) (i : Nat)
     (h : authorize cfg now op t = .ok i) :
     ∃ p, cfg.provs[i]? = some p ∧ p.init = true ∧ Verifies p (t.crAt i) := by
-  obtain ⟨p, hp, hi, _, _, _, _, ha⟩ := authorize_sound _ _ _ _ _ h
+  obtain ⟨p, hp, ⟨h1, h2⟩, hi, _, _, _, _, ha⟩ := authorize_sound _ _ _ _ _ h
   refine ⟨p, hp, hi, ?_⟩
-  have hmem : p ∈ cfg.provs := List.mem_of_getElem? hp
-  obtain ⟨h1, h2⟩ := hno p hmem
   unfold Accepts at ha
   unfold Verifies
   cases hty : p.ty <;> simp only [hty] at ha h1 h2 ⊢
@@ -635,21 +649,19 @@ theorem subject_refuted :
   exact h _ _ _ _ _ hacc rfl
 
 /-- **subject_partial / mutation: empty subject.** A token without subject is accepted only by an
-    OIDC provisioner for X.509 sign or (admins) revoke, or by an ACME / SCEP provisioner; every
-    other provisioner type and operation refuses it. -/
+    OIDC provisioner for X.509 sign or (admins) revoke; every other provisioner type and
+    operation refuses it. -/
 theorem subject_partial (cfg : Config) (now : Int) (op : Op) (t : Tok) (i : Nat)
     (hs : t.sub = []) (h : authorize cfg now op t = .ok i) :
-    ∃ p, cfg.provs[i]? = some p ∧
-      ((p.ty = .oidc ∧ op ≠ .sshSign) ∨ p.ty = .acme ∨ p.ty = .scep) := by
-  obtain ⟨p, hp, _, _, _, _, _, ha⟩ := authorize_sound _ _ _ _ _ h
+    ∃ p, cfg.provs[i]? = some p ∧ p.ty = .oidc ∧ op ≠ .sshSign := by
+  obtain ⟨p, hp, ⟨h1, h2⟩, _, _, _, _, _, ha⟩ := authorize_sound _ _ _ _ _ h
   refine ⟨p, hp, ?_⟩
   unfold Accepts at ha
-  cases hty : p.ty <;> simp only [hty] at ha ⊢
+  cases hty : p.ty <;> simp only [hty] at ha h1 h2 ⊢
   · exact absurd hs ha.2.1.2.2.2
   · exact absurd hs ha.2.2.2.1.2.2.2
   · obtain ⟨_, _, _, _, hc, _⟩ := ha; exact absurd hs hc.2.2.2
-  · left
-    refine ⟨trivial, ?_⟩
+  · refine ⟨trivial, ?_⟩
     intro hop
     rcases ha.2.2.2.2.2.2.2 with h1 | ⟨h1 | h1, _⟩ | ⟨_, _, h1, _⟩
     · rw [hop] at h1; cases h1
@@ -658,62 +670,46 @@ theorem subject_partial (cfg : Config) (now : Int) (op : Op) (t : Tok) (i : Nat)
     · exact h1 hs
   · exact absurd hs ha.2.2.2.1
   · exact absurd hs ha.2.2.1.2.2.2
-  · simp
-  · simp
+  · exact absurd rfl h1
+  · exact absurd rfl h2
 
 theorem mutation_empty_subject (cfg : Config) (now : Int) (op : Op) (t : Tok)
-    (hno : ∀ p ∈ cfg.provs, p.ty ≠ .acme ∧ p.ty ≠ .scep ∧ p.ty ≠ .oidc)
+    (hno : ∀ p ∈ cfg.provs, p.ty ≠ .oidc)
     (hs : t.sub = []) : ∀ i, authorize cfg now op t ≠ .ok i := by
   intro i h
-  obtain ⟨p, hp, hc⟩ := subject_partial _ _ _ _ _ hs h
-  obtain ⟨h1, h2, h3⟩ := hno p (List.mem_of_getElem? hp)
-  rcases hc with ⟨hc, _⟩ | hc | hc
-  · exact h3 hc
-  · exact h1 hc
-  · exact h2 hc
+  obtain ⟨p, hp, hc, _⟩ := subject_partial _ _ _ _ _ hs h
+  exact hno p (List.mem_of_getElem? hp) hc
 
 /-! ### one corollary per mutation class of the statement -/
 
-/-- the validity window holds for every accepted token unless an ACME / SCEP provisioner answered -/
+/-- the validity window holds for every accepted token -/
 theorem window_of_accept (cfg : Config) (now : Int) (op : Op) (t : Tok) (i : Nat)
-    (h : authorize cfg now op t = .ok i) :
-    ∃ p, cfg.provs[i]? = some p ∧ (p.ty = .acme ∨ p.ty = .scep ∨ Window now t) := by
-  obtain ⟨p, hp, _, _, _, _, _, ha⟩ := authorize_sound _ _ _ _ _ h
-  refine ⟨p, hp, ?_⟩
+    (h : authorize cfg now op t = .ok i) : Window now t := by
+  obtain ⟨p, _, ⟨h1, h2⟩, _, _, _, _, _, ha⟩ := authorize_sound _ _ _ _ _ h
   unfold Accepts at ha
-  cases hty : p.ty <;> simp only [hty] at ha ⊢
-  · exact .inr (.inr ha.2.1.2.1)
-  · exact .inr (.inr ha.2.2.2.1.2.1)
-  · obtain ⟨_, _, _, _, hc, _⟩ := ha; exact .inr (.inr hc.2.1)
-  · exact .inr (.inr ha.2.2.1)
-  · exact .inr (.inr ha.2.2.1)
-  · exact .inr (.inr ha.2.2.1.2.1)
-  · simp
-  · simp
+  cases hty : p.ty <;> simp only [hty] at ha h1 h2
+  · exact ha.2.1.2.1
+  · exact ha.2.2.2.1.2.1
+  · obtain ⟨_, _, _, _, hc, _⟩ := ha; exact hc.2.1
+  · exact ha.2.2.1
+  · exact ha.2.2.1
+  · exact ha.2.2.1.2.1
+  · exact absurd rfl h1
+  · exact absurd rfl h2
 
-/-- **expired**: `exp` more than a minute in the past ⇒ refused (no ACME / SCEP provisioner configured) -/
+/-- **expired**: `exp` more than a minute in the past ⇒ refused -/
 theorem mutation_expired (cfg : Config) (now : Int) (op : Op) (t : Tok) (e : Int)
-    (hno : ∀ p ∈ cfg.provs, p.ty ≠ .acme ∧ p.ty ≠ .scep)
     (he : t.exp = some e) (hlt : e * ns + leeway < now) : ∀ i, authorize cfg now op t ≠ .ok i := by
   intro i h
-  obtain ⟨p, hp, hc⟩ := window_of_accept _ _ _ _ _ h
-  obtain ⟨h1, h2⟩ := hno p (List.mem_of_getElem? hp)
-  rcases hc with hc | hc | hc
-  · exact h1 hc
-  · exact h2 hc
-  · have := hc.2.1 e he; omega
+  have := (window_of_accept _ _ _ _ _ h).2.1 e he
+  omega
 
 /-- **not yet valid**: `nbf` more than a minute ahead ⇒ refused -/
 theorem mutation_not_yet_valid (cfg : Config) (now : Int) (op : Op) (t : Tok) (n : Int)
-    (hno : ∀ p ∈ cfg.provs, p.ty ≠ .acme ∧ p.ty ≠ .scep)
     (hn : t.nbf = some n) (hlt : now < n * ns - leeway) : ∀ i, authorize cfg now op t ≠ .ok i := by
   intro i h
-  obtain ⟨p, hp, hc⟩ := window_of_accept _ _ _ _ _ h
-  obtain ⟨h1, h2⟩ := hno p (List.mem_of_getElem? hp)
-  rcases hc with hc | hc | hc
-  · exact h1 hc
-  · exact h2 hc
-  · have := hc.1 n hn; omega
+  have := (window_of_accept _ _ _ _ _ h).1 n hn
+  omega
 
 /-- **issued before the CA started** (check not switched off) ⇒ refused, whatever provisioner the
     token names — this gate precedes every provisioner, ACME and SCEP included. -/
@@ -721,7 +717,7 @@ theorem mutation_issued_before_start (cfg : Config) (now : Int) (op : Op) (t : T
     (hd : cfg.disableIat = false) (hi : t.iat = some iat) (hlt : iat < cfg.startTime) :
     ∀ i, authorize cfg now op t ≠ .ok i := by
   intro i h
-  obtain ⟨_, _, _, _, _, _, hs, _⟩ := authorize_sound _ _ _ _ _ h
+  obtain ⟨_, _, _, _, _, _, _, hs, _⟩ := authorize_sound _ _ _ _ _ h
   have := hs hd iat hi
   omega
 
@@ -730,7 +726,7 @@ theorem mutation_issued_before_start (cfg : Config) (now : Int) (op : Op) (t : T
 theorem mutation_removed (cfg : Config) (now : Int) (op : Op) (t : Tok)
     (hr : ∀ p ∈ cfg.provs, p.tokenId ∉ candidates t) : ∀ i, authorize cfg now op t ≠ .ok i := by
   intro i h
-  obtain ⟨p, hp, _, hc, _⟩ := authorize_sound _ _ _ _ _ h
+  obtain ⟨p, hp, _, _, hc, _⟩ := authorize_sound _ _ _ _ _ h
   exact hr p (List.mem_of_getElem? hp) hc
 
 /-- **failed-to-initialise provisioner**: if the provisioner the token names did not initialise, refused. -/
@@ -744,41 +740,40 @@ theorem mutation_uninitialised (cfg : Config) (now : Int) (op : Op) (t : Tok)
   · simp at h2
   · rename_i j p hl
     simp only [bind_ok, need_ok] at h2
-    obtain ⟨_, h3, _⟩ := h2
+    obtain ⟨_, _, _, h3, _⟩ := h2
     rw [hu _ _ hl] at h3
     cases h3
 
 /-- **other key / other algorithm / any bit of header, payload or signature altered**, as far as it
     is a theorem here: if the token does not verify under the key material of the provisioner its
-    claims name, and that provisioner is not ACME / SCEP, it is refused. (That an altered bit makes
+    claims name, it is refused. (That an altered bit makes
     verification fail is go-jose's / crypto's guarantee: a premise, sampled by the harness.) -/
 theorem mutation_other_key (cfg : Config) (now : Int) (op : Op) (t : Tok)
-    (hk : ∀ i p, loadByToken cfg t = some (i, p) → p.ty ≠ .acme ∧ p.ty ≠ .scep ∧ ¬ Verifies p (t.crAt i)) :
+    (hk : ∀ i p, loadByToken cfg t = some (i, p) → ¬ Verifies p (t.crAt i)) :
     ∀ i, authorize cfg now op t ≠ .ok i := by
   intro i h
-  have h' := h
+  obtain ⟨p, _, _, hv⟩ := authorize_genuine _ _ _ _ _ h
   unfold authorize at h
   simp only [bind_ok, need_ok] at h
   obtain ⟨_, _, _, _, h2⟩ := h
   split at h2
   · simp at h2
-  · rename_i j p hl
+  · rename_i j q hl
     simp only [bind_ok, need_ok, pure_ok] at h2
-    obtain ⟨_, _, _, _, _, h5, rfl⟩ := h2
-    obtain ⟨h1, h2', h3⟩ := hk _ _ hl
+    obtain ⟨_, hnt, _, _, _, _, _, h5, rfl⟩ := h2
     have ha := provOp_ok _ _ _ _ _ _ _ h5
-    apply h3
+    apply hk _ _ hl
     unfold Accepts at ha
     unfold Verifies
-    cases hty : p.ty <;> simp only [hty] at ha h1 h2' ⊢
+    cases hty : q.ty <;> simp only [hty] at ha ⊢
     · exact ha.1
     · exact ⟨ha.1, ha.2.1, ha.2.2.1⟩
     · obtain ⟨_, _, a, b, _⟩ := ha; exact ⟨a, b⟩
     · exact ha.1
     · exact ha.1
     · exact ⟨ha.1, ha.2.1⟩
-    · exact absurd rfl h1
-    · exact absurd rfl h2'
+    · simp [hty] at hnt
+    · simp [hty] at hnt
 
 /-- the provisioner types whose tokens are minted with a key or certificate registered at the CA
     and addressed to one of the CA's URLs -/
@@ -792,7 +787,7 @@ theorem mutation_other_operation (cfg : Config) (now : Int) (op : Op) (t : Tok) 
     ∃ p, cfg.provs[i]? = some p ∧ (UrlAddressed p.ty →
       ∃ a ∈ t.aud, ∃ b, ((b = .legacy ∧ (op = .sign ∨ op = .revoke)) ∨ ∃ op', Shares op op' ∧ IsUrlFor cfg.hosts op' b) ∧
         ((b.render p.audFrag).1 = a.raw ∨ a.stripped = (b.render p.audFrag).2)) := by
-  obtain ⟨p, hp, _, _, _, _, _, ha⟩ := authorize_sound _ _ _ _ _ h
+  obtain ⟨p, hp, _, _, _, _, _, _, ha⟩ := authorize_sound _ _ _ _ _ h
   refine ⟨p, hp, ?_⟩
   intro hu
   have haud : AudOk cfg p op t := by
@@ -823,7 +818,7 @@ theorem mutation_other_audience (cfg : Config) (now : Int) (op : Op) (t : Tok)
   · simp at h2
   · rename_i j p hl
     simp only [bind_ok, need_ok, pure_ok] at h2
-    obtain ⟨_, _, _, _, _, h5, rfl⟩ := h2
+    obtain ⟨_, _, _, _, _, _, _, h5, rfl⟩ := h2
     obtain ⟨hu, hm⟩ := hk _ _ hl
     unfold provOp at h5
     unfold UrlAddressed at hu
@@ -872,10 +867,9 @@ theorem mutation_other_audience (cfg : Config) (now : Int) (op : Op) (t : Tok)
 
 /-! ### the hypotheses of the corollaries are met by ordinary states -/
 
-/-- the example CA without its ACME provisioner -/
+/-- the example CA without its ACME provisioner (any configuration will do since 719d1fc) -/
 def exCfg' : Config := ⟨[exHost], [exJwk, exOidc], true, false, 1000⟩
 
-example : ∀ p ∈ exCfg'.provs, p.ty ≠ .acme ∧ p.ty ≠ .scep := by decide
 /-- expired by 61 s: refused; by 60 s: still accepted (`mutation_expired`) -/
 example : authorize exCfg' ((2300 + 61) * ns) .sign exTok = .reject .expired := by decide
 example : authorize exCfg' ((2300 + 60) * ns) .sign exTok = .ok 0 := by decide
